@@ -552,10 +552,12 @@ class ScheduleSim:
                 if ins.opname in _STORE_OPS or (ins.opname in ("LOAD_ATTR", "LOAD_METHOD") and ins.argval in _MUTATOR_NAMES)
             )
             self._hot_offsets[id(code)] = hot
-        self._event(k, offset in hot, code.co_name, offset)
+        # at this granularity an event is also hot when the instruction about to run is itself a store: the
+        # window of a read-modify-write race lies between the load and the store
+        self._event(k, offset in hot, code.co_name, offset, offset in hot)
         return None
 
-    def _event(self, k, now_hot, fn, line):
+    def _event(self, k, now_hot, fn, line, pre_hot=False):
         self.step += 1
         self.seg_steps += 1
         if self.step > self.cap:
@@ -563,7 +565,7 @@ class ScheduleSim:
         if self.over and not self.budget_raised[k] and self.inop[k]:
             self.budget_raised[k] = True
             raise StepBudget(f"{fn}:{line}")
-        hot = self.hot[k]
+        hot = self.hot[k] or pre_hot
         self.hot[k] = now_hot
         if self.inop[k]:
             self.opstep[k] += 1
@@ -751,7 +753,7 @@ def run_schedule_task(task: dict) -> dict:
         altered = []
         if finished:
             for k, opid, tree, dump0 in sim.held:
-                d1 = ast.dump(tree, include_attributes=True)
+                d1 = kernel.stable_dump(tree)
                 if d1 != dump0:
                     altered.append({"thread": k, "id": opid, "before": dump0, "after": d1})
         return {
@@ -892,7 +894,7 @@ def run_history_task(task: dict) -> dict:
             results.append(rec)
         altered = []
         for opid, tree, dump0 in held:
-            d1 = ast.dump(tree, include_attributes=True)
+            d1 = kernel.stable_dump(tree)
             if d1 != dump0:
                 altered.append({"thread": 0, "id": opid, "before": dump0, "after": d1})
         return {
